@@ -31,7 +31,7 @@ class json:  # noqa: N801 -- every rendering of script data is key-sorted, so th
 
 from fractions import Fraction
 
-from ..core import Engine, stream, BuildError, digest
+from ..core import Engine, stream, BuildError, digest, SimCancel
 from ..build import World, render, render_type
 from ..gen import ExprGen, gen_types, gen_fluents, values_of, subtype_of, FLUENT_TYPES
 
@@ -195,7 +195,7 @@ def apply_op(R, op):
             return ("ok", _apply(W, R, p, k, op))
     except BuildError:
         raise
-    except Exception as ex:
+    except (Exception, SimCancel) as ex:
         return ("exc", type(ex).__name__)
 
 
@@ -349,6 +349,20 @@ def _apply(W, R, p, k, op):
         if op["obj"] not in W.objects:
             raise BuildError(op["obj"])
         p.add_object(W.objects[op["obj"]])
+        return None
+    if k == "add_objects_bulk":
+        if any(o not in W.objects for o in op["objs"]):
+            raise BuildError(op["objs"])
+
+        def feed():
+            # user-supplied iterable; it may be cut short by a cancellation (a BaseException, like KeyboardInterrupt)
+            for n_, o in enumerate(op["objs"]):
+                if op.get("raise_after") is not None and n_ == op["raise_after"]:
+                    raise SimCancel("injected by the simulator")
+                yield W.objects[o]
+            if op.get("raise_after") is not None and op["raise_after"] >= len(op["objs"]):
+                raise SimCancel("injected by the simulator")
+        p.add_objects(feed())
         return None
     if k == "add_action":
         p.add_action(build_action(W, op["action"]))
@@ -874,7 +888,7 @@ class ModelHist(Engine):
             g = ExprGen(ro, w2, [], quant=False, ifuns=False, div=False, const_range=(0, 3))
 
         # a base: some objects, fluents, one action, so that later operations have something to talk about
-        for o, _ in objs[: max(2, len(objs) - 1)]:
+        for o, _ in objs[: (max(2, len(objs) - 1) if ro.random() < 0.5 else 2)]:
             ops.append({"op": "add_object", "obj": o})
             added_obj.append(o)
         for fd in fl_all[:3]:
@@ -1001,6 +1015,13 @@ class ModelHist(Engine):
             elif r < 0.14:
                 if faulty and added_fl:
                     ops.append({"op": "add_fluent", "fluent": ro.choice(added_fl), "default": None, "faulty": "duplicate"})
+                elif len(objs) - len(added_obj) >= 2 and ro.random() < 0.4:
+                    # the bulk variant, fed by an iterable that may be cancelled after k objects
+                    rest = [o for o, _ in objs[len(added_obj):len(added_obj) + 2]]
+                    ra_ = ro.choice([None, None, 0, 1, 2])
+                    ops.append({"op": "add_objects_bulk", "objs": rest, "raise_after": ra_})
+                    added_obj.extend(rest if ra_ is None else rest[:ra_])
+                    regen()
                 elif len(added_obj) < len(objs):
                     o = objs[len(added_obj)][0]
                     ops.append({"op": "add_object", "obj": o})
